@@ -200,13 +200,34 @@ def dictattr_section(ctx, M, cls):
         ctx.post(pre + 'values_untouched', hy + [R.dom(K0)], R.get(K0) == value(K0), **kw)
         ctx.post(pre + 'key_order', hy + [R.dom(K0), R.dom(K1)], (R.rk(K0) < R.rk(K1)) == (order(K0) < order(K1)), **kw)
 
-    def run(name, key, th, ex, self_, args, kwargs=None, E=(), J=()):
+    def run(name, key, th, ex, self_, args, kwargs=None, E=(), J=(), excluded=None, pre=()):
         fdef = M['inline'][key][1]
-        st = State()
+        st = State(); st.pc += list(pre)
         outs = ex.run_function(st, key, [self_] + list(args), kwargs or {})
         inst = finish(ctx, ex, th, list(E), list(J))
-        ctx.record_function(M['inline'][key][0], key, fdef, ex.stmts_executed)
+        ctx.record_function(M['inline'][key][0], key, fdef, ex.stmts_executed, excluded=excluded)
         return outs, inst
+
+    TUPLE_PATH = ['tuple paths d - (k1, k2): nested deletion inside a shared child (outside the key universe; noted in DESIGN section 7)']
+
+    def keys_law(th, ex, out, self_, operand, pre, kw, E):
+        """(d - k).keys() == d.keys() - k, both sides executed: the real dictattr.keys on the result and on the receiver, the real
+        ulist.__sub__ on the latter; two duplicate-free lists are equal iff same members in the same relative order"""
+        st2 = out.st.fork(); st2.pending = []
+        kk = th.resolve(cls, 'keys')
+        L1 = ex.call_inline_expr(st2, kk, [out.val], {})
+        L2 = ex.call_inline_expr(st2, kk, [self_], {})
+        L3 = ex.call_inline_expr(st2, th.resolve('ulist', '__sub__'), [L2, operand], {})
+        inst = finish(ctx, ex, th, E)
+        hy = ex.facts + st2.pc + inst
+        for o in st2.pending:
+            ctx.post(pre + 'keys_law.never_raises', ex.facts + o.st.pc + inst, BoolVal(False), kind='safety', **kw)
+        if L1.kind != 'plist' or L3.kind != 'plist':
+            raise OutOfSubset('keys() does not return a list')
+        ctx.post(pre + 'keys_law.both_sides_are_ulists', hy, And(BoolVal(L1.cls == 'ulist' and L3.cls == 'ulist'), L1.tag == L3.tag), **kw)
+        ctx.post(pre + 'keys_law.both_sides_duplicate_free', hy, And(L1.pl.nodup, L3.pl.nodup), **kw)
+        ctx.post(pre + 'keys_law.same_members', hy, L1.pl.mem(K0) == L3.pl.mem(K0), **kw)
+        ctx.post(pre + 'keys_law.same_order', hy + [L1.pl.mem(K0), L1.pl.mem(K1)], (L1.pl.fst(K0) < L1.pl.fst(K1)) == (L3.pl.fst(K0) < L3.pl.fst(K1)), **kw)
 
     def resolve(th, mname):
         key = th.resolve(cls, mname)
@@ -221,7 +242,7 @@ def dictattr_section(ctx, M, cls):
         key = resolve(th, '__sub__')
         E = [K0, K1, k]
         ctx.default_meta = dict(search_hints=[])
-        outs, inst = run('sub.key', key, th, ex, self_, [V(k, 'str')], E=E)
+        outs, inst = run('sub.key', key, th, ex, self_, [V(k, 'str')], E=E, excluded=TUPLE_PATH)
         kw = dict(witness=wit(D, k=k, k_in_d=D.dom(k)), replay=rp('dictattr', cls, 'sub.key'))
         pre = '%s.sub.key.' % cls
         nret = 0
@@ -233,6 +254,7 @@ def dictattr_section(ctx, M, cls):
             nret += 1
             mapping_posts(pre, hy, out.val, self_, lambda x: And(D.dom(x), x != k), D.get, D.rk, kw)
             ctx.post(pre + 'receiver_unchanged', hy, receiver_unchanged(out, self_), kind='frame', **kw)
+            keys_law(th, ex, out, self_, V(k, 'elem'), pre, kw, E)
         if not nret:
             raise OutOfSubset('no returning path')
         ctx.cover(pre + 'precondition', [D.dom(k), D.dom(K0), K0 != k] + th.inst(E))
@@ -270,7 +292,7 @@ def dictattr_section(ctx, M, cls):
         sel = th.sym_list('ks', cls='list', elty='str')
         box['sel'] = sel
         E = [K0, K1]
-        outs, inst = run('sub.list', key, th, ex, self_, [sel], E=E)
+        outs, inst = run('sub.list', key, th, ex, self_, [sel], E=E, excluded=TUPLE_PATH)
         kw = dict(witness=wit(D, len_ks=LEN(ks), K0_in_ks=MEM(ks, K0), K1_in_ks=MEM(ks, K1)), replay=rp('dictattr', cls, 'sub.list'))
         pre = '%s.sub.list.' % cls
         nret = 0
@@ -282,6 +304,7 @@ def dictattr_section(ctx, M, cls):
             nret += 1
             mapping_posts(pre, hy, out.val, self_, lambda x: And(D.dom(x), Not(MEM(ks, x))), D.get, D.rk, kw)
             ctx.post(pre + 'receiver_unchanged', hy, receiver_unchanged(out, self_), kind='frame', **kw)
+            keys_law(th, ex, out, self_, sel, pre, kw, E)
         if not nret:
             raise OutOfSubset('no returning path')
         ctx.cover(pre + 'precondition', [D.dom(K0), MEM(ks, K0), D.dom(K1), Not(MEM(ks, K1)), LEN(ks) >= 2] + th.inst(E))
@@ -380,6 +403,65 @@ def dictattr_section(ctx, M, cls):
         ctx.cover(pre + 'precondition.absent', st_pre + [Not(D.dom(k))] + th.inst(E))
     for how in ('getitem', 'getattr'):
         ctx.guarded('%s.%s.key' % (cls, how), lambda how=how: getitem_key(how))
+
+    # ------------------------------------------------------------------ e.key = v, del e.key  (the documented in-place operations, on an owned copy)
+    def setattr_():
+        from pyvc.th_maps import STARTSWITH, CONTAINS
+        th, ex, _ = setup('setattr.key')
+        self_ = th.sym_dict('d', cls=cls, tag=CLS, kty='str', own=True)
+        D = self_.pd
+        v = Const('v', Val)
+        key = resolve(th, '__setattr__')
+        E = [K0, K1, k]
+        outs, inst = run('setattr.key', key, th, ex, self_, [V(k, 'str'), V(v)], E=E, pre=[Not(STARTSWITH(k, th.strv('_')))],
+                         excluded=['attribute names starting with "_" (python attributes, not items)'])
+        kw = dict(witness=wit(D, k=k, k_in_d=D.dom(k)), replay=rp('dictattr', cls, 'setattr.key'))
+        pre = '%s.setattr.key.' % cls
+        nret = 0
+        for out in outs:
+            hy = ex.facts + out.st.pc + inst
+            if out.kind != 'return':
+                ctx.post(pre + 'never_raises.%s' % out.val, hy, BoolVal(False), kind='safety', **kw)
+                continue
+            nret += 1
+            cur = out.st.env.get('self')
+            if cur is None or cur.kind != 'pdict':
+                raise OutOfSubset('receiver lost')
+            R = cur.pd
+            ctx.post(pre + 'stores_the_item', hy, And(R.dom(k), R.get(k) == v), **kw)
+            ctx.post(pre + 'other_items_untouched', hy + [K0 != k], And(R.dom(K0) == D.dom(K0), Implies(D.dom(K0), R.get(K0) == D.get(K0))), **kw)
+            ctx.post(pre + 'key_order', hy + [R.dom(K0), R.dom(K1)], (R.rk(K0) < R.rk(K1)) == (If(D.dom(K0), D.rk(K0), D.nxt) < If(D.dom(K1), D.rk(K1), D.nxt)), **kw)
+        if not nret:
+            raise OutOfSubset('no returning path')
+    ctx.guarded('%s.setattr.key' % cls, setattr_)
+
+    def delattr_():
+        from pyvc.th_maps import STARTSWITH, CONTAINS
+        th, ex, _ = setup('delattr.key')
+        self_ = th.sym_dict('d', cls=cls, tag=CLS, kty='str', own=True)
+        D = self_.pd
+        key = resolve(th, '__delattr__')
+        E = [K0, K1, k]
+        outs, inst = run('delattr.key', key, th, ex, self_, [V(k, 'str')], E=E, pre=[Not(STARTSWITH(k, th.strv('_'))), Not(CONTAINS(k, th.strv('.')))],
+                         excluded=['attribute names starting with "_"', 'dotted keys (nested deletion)'])
+        kw = dict(witness=wit(D, k=k, k_in_d=D.dom(k)), replay=rp('dictattr', cls, 'delattr.key'))
+        pre = '%s.delattr.key.' % cls
+        nret = 0
+        for out in outs:
+            hy = ex.facts + out.st.pc + inst
+            if out.kind != 'return':
+                ctx.post(pre + 'raises_only_AttributeError_and_only_for_an_absent_key', hy, And(BoolVal(out.val == 'AttributeError'), Not(D.dom(k))), kind='safety', **kw)
+                continue
+            nret += 1
+            cur = out.st.env.get('self')
+            if cur is None or cur.kind != 'pdict':
+                raise OutOfSubset('receiver lost')
+            R = cur.pd
+            ctx.post(pre + 'removes_exactly_the_item', hy, And(D.dom(k), R.dom(K0) == And(D.dom(K0), K0 != k)), **kw)
+            ctx.post(pre + 'other_items_untouched', hy + [R.dom(K0)], And(R.get(K0) == D.get(K0), R.rk(K0) == D.rk(K0)), **kw)
+        if not nret:
+            raise OutOfSubset('no returning path')
+    ctx.guarded('%s.delattr.key' % cls, delattr_)
 
     # ------------------------------------------------------------------ d[k1, k2, ...] -> list of values
     def getitem_tuple():
